@@ -1202,6 +1202,10 @@ def explore(scenario: Callable[[Ctx], Any], max_paths=20000, rlimit=20_000_000) 
         except Unsupported as e:
             res.unsupported.append(f'{type(e).__name__}: {e}')
             outcome = 'unsupported'
+        except RecursionError:
+            # array expressions nested deeper than the executor can evaluate: undecided, not a crash and not a verdict
+            res.unsupported.append('Unsupported: array expression nested too deeply for the executor (recursion limit)')
+            outcome = 'unsupported'
         finally:
             CTX = None
         res.lib_used |= c.lib_used
